@@ -136,6 +136,14 @@ def main():
     ap.add_argument('--no-lean', action='store_true', help='skip the Lean build/audit (development only)')
     a = ap.parse_args()
     tier = a.tier if a.tier in ('quick', 'thorough') else 'quick'
+    # one check at a time per /verif: every check regenerates lean/MLGen from the tree under test and rebuilds
+    try:
+        import fcntl
+        os.makedirs(os.path.join(LEAN_DIR, '.lake'), exist_ok=True)
+        _lock = open(os.path.join(LEAN_DIR, '.lake', 'check.lock'), 'w')
+        fcntl.flock(_lock, fcntl.LOCK_EX)
+    except OSError:
+        _lock = None
     seed = int(os.environ.get('VERIF_SEED', '0') or 0)
     R = Run(a.pid, tier, seed)
     R.dev = bool(a.no_lean)       # development runs (no Lean build/audit) never touch the committed evidence
